@@ -147,3 +147,87 @@ Theorem C11_second_moment_scale_r_real :
     m2 (fun n : nat => @mexp n) a S R1 (c *: R2) t = c *: m2 (fun n : nat => @mexp n) a S R1 R2 t.
 Proof. exact: real_m2_scale_r. Qed.
 Print Assumptions C11_second_moment_scale_r_real.
+
+(* ------------------------------------------------------------------------------------------------
+   The conservation identities stated DIRECTLY about the translated source on ANY piecewise-constant demography
+   (analysis/SourceLinear.v, SourceCovariance.v, SourceLumpMoments.v; gen/LoopsGen.v, MomentsGen.v, RewardsGen.v regenerated from
+   the source on every run):
+
+   C11_source_sfs_sums_to_branch_length_in_mean       sum_i E[xi_i] = E[total branch length]
+   C11_source_sfs_covariances_sum_to_variance         sum_ij cov(xi_i, xi_j) = var(total branch length)
+   C11_source_weighted_sfs_is_n_height                sum_i i E[xi_i] = n E[tree height]
+   C11_source_same_moments_on_both_representations    moments of every order transfer along a lumping that holds in every epoch
+                                                      (lineage counting <-> block counting for rewards both support) *)
+From PG Require Import model.Loop analysis.Denote analysis.CdfFacts gen.NpLoops gen.LoopsGen proofs.RewardProofs
+                       analysis.SourceLinear analysis.SourceCovariance analysis.SourceLumpMoments.
+Local Notation Q0 := (QArith_base.Qmake BinNums.Z0 BinNums.xH).
+
+Theorem C11_source_sfs_sums_to_branch_length_in_mean :
+  forall (expm : seq (seq R) -> seq (seq R)),
+    (forall n A, wf n n A -> wf n n (expm A) /\ mx_of n n (expm A) = mexp (mx_of n n A)) ->
+  forall (regf : seq (seq R) -> R) (n : nat) (Ss : seq (QArith_base.Q * seq (seq R))) (Slast : seq (seq R)) (alpha : seq R)
+         (ts : seq QArith_base.Q),
+    regf (List.hd (None, Slast) (all_epochs Ss Slast)).2 <> 0 ->
+    List.Forall (fun x : QArith_base.Q * seq (seq R) => wf n n x.2) Ss -> wf n n Slast ->
+    epochs_wf (seq (seq R)) Q0 Ss -> List.Forall (fun t => QArith_base.Qle Q0 t) ts ->
+  forall (nn : nat) (r0 : reward) (sts : seq state),
+    size sts = n -> (2 <= nn)%coq_nat -> reward_ok nn r0 = true -> List.Forall (fun s => bc_inv nn s) sts ->
+    acc1 expm regf Ss Slast alpha ts [seq gen_reward_get OpsR nn 1 (RProduct [:: r0; RTotalBranchLength]) s | s <- sts]
+    = SourceLinear.vsum (size ts)
+        [seq acc1 expm regf Ss Slast alpha ts [seq gen_reward_get OpsR nn 1 (RProduct [:: r0; RUnfoldedSFS i]) s | s <- sts]
+        | i <- iota 1 (nn - 1)].
+Proof. move=> expm es regf n Ss Slast alpha ts; exact: source_expected_sfs_sums_to_branch_length. Qed.
+Print Assumptions C11_source_sfs_sums_to_branch_length_in_mean.
+
+Theorem C11_source_sfs_covariances_sum_to_variance :
+  forall (expm : seq (seq R) -> seq (seq R)),
+    (forall n A, wf n n A -> wf n n (expm A) /\ mx_of n n (expm A) = mexp (mx_of n n A)) ->
+  forall (n : nat) (Ss : seq (QArith_base.Q * seq (seq R))) (Slast : seq (seq R)) (alpha : seq R) (lam : R) (t : QArith_base.Q),
+    lam <> 0 ->
+    List.Forall (fun x : QArith_base.Q * seq (seq R) => wf n n x.2) Ss -> wf n n Slast ->
+    epochs_wf (seq (seq R)) Q0 Ss -> QArith_base.Qle Q0 t ->
+  forall (self_reward : seq R) (nn : nat) (r0 : reward) (sts : seq state),
+    size sts = n -> (2 <= nn)%coq_nat -> reward_ok nn r0 = true -> List.Forall (fun s => bc_inv nn s) sts ->
+    let rv x := [seq gen_reward_get OpsR nn 1 x s | s <- sts] in
+    \sum_(i <- iota 1 (nn - 1)) \sum_(j <- iota 1 (nn - 1))
+       src_cov expm Ss Slast alpha lam t self_reward (rv (RProduct [:: r0; RUnfoldedSFS i])) (rv (RProduct [:: r0; RUnfoldedSFS j]))
+    = src_cov expm Ss Slast alpha lam t self_reward (rv (RProduct [:: r0; RTotalBranchLength])) (rv (RProduct [:: r0; RTotalBranchLength])).
+Proof. move=> expm es n Ss Slast alpha lam t l0 h1 h2 h5 t0 sr; exact: source_sfs_covariances_sum_to_branch_length_variance. Qed.
+Print Assumptions C11_source_sfs_covariances_sum_to_variance.
+
+Theorem C11_source_weighted_sfs_is_n_height :
+  forall (expm : seq (seq R) -> seq (seq R)),
+    (forall n A, wf n n A -> wf n n (expm A) /\ mx_of n n (expm A) = mexp (mx_of n n A)) ->
+  forall (regf : seq (seq R) -> R) (n : nat) (Ss : seq (QArith_base.Q * seq (seq R))) (Slast : seq (seq R)) (alpha : seq R)
+         (ts : seq QArith_base.Q),
+    regf (List.hd (None, Slast) (all_epochs Ss Slast)).2 <> 0 ->
+    List.Forall (fun x : QArith_base.Q * seq (seq R) => wf n n x.2) Ss -> wf n n Slast ->
+    epochs_wf (seq (seq R)) Q0 Ss -> List.Forall (fun t => QArith_base.Qle Q0 t) ts ->
+  forall (nn : nat) (sts : seq state),
+    size sts = n -> (2 <= nn)%coq_nat -> List.Forall (fun s => bc_inv nn s) sts ->
+    Matrix.vscale OpsR (INR nn) (acc1 expm regf Ss Slast alpha ts [seq gen_reward_get OpsR nn 1 RTreeHeight s | s <- sts])
+    = SourceLinear.vsum (size ts)
+        [seq Matrix.vscale OpsR (INR i) (acc1 expm regf Ss Slast alpha ts [seq gen_reward_get OpsR nn 1 (RUnfoldedSFS i) s | s <- sts])
+        | i <- iota 1 (nn - 1)].
+Proof. move=> expm es regf n Ss Slast alpha ts; exact: source_weighted_sfs_is_n_height. Qed.
+Print Assumptions C11_source_weighted_sfs_is_n_height.
+
+Theorem C11_source_same_moments_on_both_representations :
+  forall expm : seq (seq R) -> seq (seq R),
+    (forall n A, wf n n A -> wf n n (expm A) /\ mx_of n n (expm A) = mexp (mx_of n n A)) ->
+  forall (regfL regfC : seq (seq R) -> R) (m n k : nat) (P : seq (seq R))
+         (SsL : seq (QArith_base.Q * seq (seq R))) (SlastL : seq (seq R)) (SsC : seq (QArith_base.Q * seq (seq R))) (SlastC : seq (seq R))
+         (RsL RsC : seq (seq R)) (alphaL : seq R) (ts : seq QArith_base.Q),
+    regfL (List.hd (None, SlastL) (all_epochs SsL SlastL)).2 <> 0 ->
+    regfC (List.hd (None, SlastC) (all_epochs SsC SlastC)).2 <> 0 ->
+    wf m n P -> wf m m SlastL -> wf n n SlastC ->
+    List.Forall2 (lump_rel m n P) SsL SsC ->
+    Matrix.mmul OpsR SlastL P = Matrix.mmul OpsR P SlastC ->
+    (forall i, (i < k)%N -> Matrix.mmul OpsR (Matrix.diagm OpsR (nth [::] RsL i)) P = Matrix.mmul OpsR P (Matrix.diagm OpsR (nth [::] RsC i))) ->
+    Matrix.mvec OpsR P (PhaseType.ones OpsR n) = PhaseType.ones OpsR m ->
+    (forall i, (i < k)%N -> size (nth [::] RsL i) = m) -> (forall i, (i < k)%N -> size (nth [::] RsC i) = n) ->
+    size alphaL = m ->
+    PhaseTypeDistribution_accumulate OpsR expm regfL (length SlastL) k (all_epochs SsL SlastL) RsL alphaL ts
+    = PhaseTypeDistribution_accumulate OpsR expm regfC (length SlastC) k (all_epochs SsC SlastC) RsC (Matrix.vmat OpsR alphaL P) ts.
+Proof. exact: source_accumulate_lumping. Qed.
+Print Assumptions C11_source_same_moments_on_both_representations.
